@@ -3,7 +3,7 @@ package rules
 func init() {
 	register(&Property{
 		ID:      "C05",
-		Explain: "FOLD of wsutil.(*Reader).NextFrame: the method is evaluated abstractly on every combination of header-read outcome (nil / io.EOF / other), Fin, opcode class, Masked, fragmentation state, side, SkipHeaderCheck, CheckUTF8, previous message opcode, cipher reader present or not, 0-2 receive extensions (each accepting or rejecting), MaxFrameSize (0, negative, positive with the announced length above or below it), and callbacks present / failing, with ws.CheckHeader as an atom that accepts or rejects. For every path the rules compare the final reader state and the call trace with the reference: nothing is installed (raw, frame, State, opCode, utf8 untouched) and a non-nil error is returned unless the header was read, CheckHeader(hdr as decoded, r.State as it is now) accepted it (or SkipHeaderCheck), and the size gate passed; an oversized frame yields ErrFrameTooLarge before any payload access; io.EOF while fragmented becomes io.ErrUnexpectedEOF; extensions run after the checks and their rejection aborts before the frame reader is stored. Together with C03's exact CheckHeader table and C04's state table this is the RFC fragmentation automaton. The header the gates see is the one (*Reader).readHeader decodes: its decode table (all 65536 first-two-byte values) is part of this check, as is the Discard fold (a violation in a later fragment surfaces from Discard). The Read table (with the header NextFrame returns varying over control / final / empty) and the protocol-error-kind rule (every ErrProtocol* and ErrUnexpectedCompressionBit is a ws.ProtocolError) are part of this check. The helpers (readData, ReadMessage) are part of this check: a violation in a later frame surfaces from them too.",
+		Explain: "FOLD of wsutil.(*Reader).NextFrame: the method is evaluated abstractly on every combination of header-read outcome (nil / io.EOF / other), Fin, opcode class, Masked, fragmentation state, side, SkipHeaderCheck, CheckUTF8, previous message opcode, cipher reader present or not, 0-2 receive extensions (each accepting or rejecting), MaxFrameSize (0, negative, positive with the announced length above or below it), and callbacks present / failing, with ws.CheckHeader as an atom that accepts or rejects. For every path the rules compare the final reader state and the call trace with the reference: nothing is installed (raw, frame, State, opCode, utf8 untouched) and a non-nil error is returned unless the header was read, CheckHeader(hdr as decoded, r.State as it is now) accepted it (or SkipHeaderCheck), and the size gate passed; an oversized frame yields ErrFrameTooLarge before any payload access; io.EOF while fragmented becomes io.ErrUnexpectedEOF; extensions run after the checks and their rejection aborts before the frame reader is stored. Together with C03's exact CheckHeader table and C04's state table this is the RFC fragmentation automaton. The header the gates see is the one (*Reader).readHeader decodes: its decode table (all 65536 first-two-byte values) is part of this check, as is the Discard fold (a violation in a later fragment surfaces from Discard). The Read table (with the header NextFrame returns varying over control / final / empty) and the protocol-error-kind rule (every ErrProtocol* and ErrUnexpectedCompressionBit is a ws.ProtocolError) are part of this check. The helpers (readData, ReadMessage) are part of this check: a violation in a later frame surfaces from them too. helper-nextreader: NextReader checks the header against exactly the state it was given.",
 		Trusted: []string{"go/ssa + go/types", "the checker's abstract evaluator", "ws.CheckHeader's own table is decided under C03"},
 		Assume:  []string{"delivery of the frames before the offending one is C04's (undecided) history part"},
 		Run: func(c *Ctx) {
